@@ -111,9 +111,17 @@ def shape(e, roles=None, depth=20):
             if "try(%s)" % xs in ss:
                 # match opt { Some(x) => f(x), None => d }  is  opt.map_or(d, f)
                 body_ = ss.replace("try(%s)" % xs, "p1")
+                ns = shape(none_v, roles, depth - 1)
+                if ns == "Option::None{}" and body_.startswith("Option::Some{0:") and body_.endswith("}"):
+                    # match opt { Some(x) => Some(f(x)), None => None }  is  opt.map(f)
+                    inner_ = body_[len("Option::Some{0:"):-1]
+                    m = _re.match(r"^([A-Za-z_][\w:<>]*)\(p1\)$", inner_)
+                    if inner_ == "p1":
+                        return xs
+                    return "Option::map(%s,%s)" % (xs, "fn:%s" % m.group(1) if m else "\u03bb(%s)" % inner_)
                 m = _re.match(r"^([A-Za-z_][\w:<>]*)\(p1\)$", body_)
                 f_ = "fn:%s" % m.group(1) if m else "\u03bb(%s)" % body_
-                return "Option::map_or(%s,%s,%s)" % (xs, shape(none_v, roles, depth - 1), f_)
+                return "Option::map_or(%s,%s,%s)" % (xs, ns, f_)
         return "var:%s" % short_ty(e.ty)
     if isinstance(e, Upvar):
         cap = e.captured()
@@ -123,7 +131,7 @@ def shape(e, roles=None, depth=20):
         return "upvar#%d" % e.idx
     if isinstance(e, Const):
         if e.fn:
-            if e.fn in TRANSPARENT_CALLS and TRANSPARENT_CALLS[e.fn] == "deref" or e.fn in IDENTITY_FNS:
+            if e.fn in TRANSPARENT_CALLS and TRANSPARENT_CALLS[e.fn] in ("deref", "into", "clone") or e.fn in IDENTITY_FNS:
                 return "\u03bb(p1)"  # a reference conversion used as a function value: the identity on the value
             if e.c.get("fn_local") and getattr(e, "owner", None) is not None:
                 suffix = field_getter(e.owner.facts, e.fn)
@@ -228,7 +236,7 @@ def shape(e, roles=None, depth=20):
         if e.t.get("resolved_local") and len(e.args) == 1 and getattr(e, "owner", None) is not None:
             suffix = field_getter(e.owner.facts, e.t.get("resolved") or e.t.get("callee"))
             if suffix is not None:
-                return shape(e.args[0], roles, depth - 1) + suffix  # accessor call = field read
+                return _getter_on_place(e, suffix, roles, depth)  # accessor call = field read
         cid = callee_id(e.t)
         if cid == "mem::size_of" and e.t.get("callee_args"):
             return "size_of<%s>" % short_ty(e.t["callee_args"][0])
@@ -255,6 +263,10 @@ def shape(e, roles=None, depth=20):
             if isinstance(a0, Call) and callee_id(a0.t) == "Option::map" and len(a0.args) == 2:
                 # opt.map(f).unwrap_or(d) is opt.map_or(d, f)
                 return "Option::map_or(%s,%s,%s)" % (shape(a0.args[0], roles, depth - 1), parts[1], shape(a0.args[1], roles, depth - 1))
+        if cid in ("Iterator::copied", "Iterator::cloned", "Option::copied", "Option::cloned") and len(parts) == 1:
+            return parts[0]  # the same elements by value: `iter().copied()` / `.cloned()` / `|&x|` / `*x` are one spelling
+        if cid == "Iterator::map" and len(parts) == 2 and parts[1] == "\u03bb(p1)":
+            return parts[0]  # mapping a value-preserving conversion over an iterator keeps the elements
         if cid == "Option::map" and len(parts) == 2 and parts[1] == "\u03bb(p1)":
             return parts[0]  # mapping a reference conversion over an option keeps the value
         if cid in ("Option::as_deref", "Option::as_deref_mut") and len(parts) == 1:
@@ -290,8 +302,42 @@ def field_getter(facts, path):
             lam = _plain_lambda(b)
             if lam and _re.match(r"^p1(\.[A-Za-z_]\w*|\.\d+)+$", lam):
                 out = lam[2:]
+                # the projection itself, for re-applying it to the caller's place
+                def place_of(l, hops=0):
+                    ds_ = b.defs.get(l, [])
+                    if hops > 6 or len(ds_) != 1 or ds_[0][2] != "assign" or b.partial_defs.get(l):
+                        return None
+                    rv_ = ds_[0][3]["rv"]
+                    pl_ = rv_["op"]["place"] if rv_["k"] == "use" and rv_["op"].get("k") in ("copy", "move") else rv_["place"] if rv_["k"] == "ref" else None
+                    if pl_ is None or not all(x.get("k") in ("deref", "field") for x in pl_["p"]):
+                        return None
+                    if pl_["l"] == 1:
+                        return list(pl_["p"])
+                    inner = place_of(pl_["l"], hops + 1)
+                    return None if inner is None else inner + list(pl_["p"])
+                full = place_of(0)
+                _GETTER_PROJS[key] = [x for x in full if x.get("k") == "field"] if full else None
         _FIELD_GETTERS[key] = out
     return _FIELD_GETTERS[key]
+
+
+_GETTER_PROJS = {}
+
+
+def _getter_on_place(call, suffix, roles, depth):
+    """accessor(x) where x is a local of the caller: the field read on that local (so that what is known about the
+    local's fields - a struct built by one literal - applies)."""
+    owner = call.owner
+    projs = _GETTER_PROJS.get((id(owner.facts), call.t.get("resolved") or call.t.get("callee")))
+    a = call.args[0]
+    while isinstance(a, (Ref, Deref)) or (isinstance(a, Named) and a.local not in (roles or {})):
+        a = a.x
+    if projs and isinstance(a, Var) and not a.is_arg and a.local not in (roles or {}) and hasattr(owner, "_stable_field"):
+        op = owner._stable_field(a.local, projs[0]["i"])
+        if op is not None and op.get("k") in ("copy", "move", "const"):
+            e2 = owner._project(owner.expr_of_operand(op, depth - 1), projs[1:], depth - 1, None)
+            return shape(e2, roles, depth - 1)
+    return shape(call.args[0], roles, depth - 1) + suffix
 
 
 def _getter_index(facts):
@@ -306,6 +352,30 @@ def _getter_index(facts):
                     idx.setdefault((b.raw.get("parent"), lam), nice(b.path))
         _GETTER_INDEX[key] = idx
     return _GETTER_INDEX[key]
+
+
+def expand_plain_call(call):
+    """`f(a, b)` for a function of the crate whose body is one straight-line, effect-free expression: that
+    expression with the parameters replaced by the argument shapes (a constructor that delegates to a more general
+    constructor builds what the general one builds). None if f is not that simple."""
+    owner = getattr(call, "owner", None)
+    if owner is None or not call.t.get("resolved_local"):
+        return None
+    b = owner.facts.body(call.t.get("resolved") or call.t.get("callee"), required=False)
+    if b is None or b.promoted is not None or b.kind not in ("Fn", "AssocFn") or len(call.args) != b.arg_count:
+        return None
+    if any(b.blocks[x]["term"]["k"] in ("switch", "call") for x in range(len(b.blocks)) if not b.blocks[x]["cleanup"]):
+        return None
+    ds = b.defs.get(0, [])
+    if len(ds) != 1 or b.partial_defs.get(0) or ds[0][2] != "assign":
+        return None
+    roles = {l: "\x00%d\x00" % l for l in range(1, b.arg_count + 1)}
+    sh = shape(b.expr_of_rvalue(ds[0][3]["rv"]), roles, 12)
+    if "var:" in sh or "?" in sh or len(sh) > 600:
+        return None
+    for l in range(1, b.arg_count + 1):
+        sh = sh.replace("\x00%d\x00" % l, shape(call.args[l - 1]))
+    return sh
 
 
 def _plain_lambda(b):
@@ -845,6 +915,31 @@ def root_local(e):
             e = e.args[0]
             continue
         return None
+
+
+def fold_question(shapes):
+    """The definitions of an Option-returning function's result written with `?` - the residual of `X?` and a
+    value built from its payload - as the combinator they spell: [residual(X), Some(B(try X))] is `X.map(B)`,
+    [residual(X), B(try X)] is `X.and_then(B)`. Any other list is returned unchanged."""
+    res = [sh for sh in shapes if sh.startswith("FromResidual::from_residual(break(Try::branch(") and sh.endswith(")))")]
+    rest = [sh for sh in shapes if sh not in res]
+    if len(res) != 1 or len(rest) != 1:
+        return shapes
+    x = res[0][len("FromResidual::from_residual(break(Try::branch("):-3]
+    v = rest[0]
+    payload = _try_shape(x)
+    if payload not in v or "Result::" in v[:12]:
+        return shapes
+    comb = "Option::and_then"
+    if v.startswith("Option::Some{0:") and v.endswith("}"):
+        comb, v = "Option::map", v[len("Option::Some{0:"):-1]
+    body_ = v.replace(payload, "p1")
+    if "try(" in body_ and payload in body_:
+        return shapes
+    m = _re.match(r"^([A-Za-z_][\w:<>]*)\(p1\)$", body_)
+    if body_ == "p1":
+        return [x]
+    return ["%s(%s,%s)" % (comb, x, "fn:%s" % m.group(1) if m else "\u03bb(%s)" % body_)]
 
 
 def value_shape(body, local, roles=None):
